@@ -291,3 +291,35 @@ def run(ctx):  # noqa: F811
     # "each layer's output": the real collectors keep every line of a child that is not a keep-alive line of dots
     from harness import corr_channel
     corr_channel.stdout_cases(ctx)
+    option_glue(ctx)
+
+
+def option_glue(ctx):
+    """the N the scheduler works with is the N of the command line, whatever the machine looks like: every spelling
+    of -j, with the runner confined to one CPU and unconfined (layers mostly wait - for daemons, sockets, each other)"""
+    import os
+    from zope.testrunner import options as ztr_options
+    full = os.sched_getaffinity(0) if hasattr(os, "sched_getaffinity") else None
+    try:
+        for confined in (False, True):
+            if confined:
+                if not full:
+                    break
+                os.sched_setaffinity(0, {min(full)})
+            for n in list(range(1, 9)) + [17, 64]:
+                for argv in (["-j", str(n)], ["-j%d" % n], ["-vj%d" % n]):
+                    try:
+                        got = ztr_options.get_options(["test"] + argv + ["--path", ctx.tmp]).processes
+                    except BaseException as e:  # noqa: BLE001
+                        got = repr(e)
+                    ctx.count(("glue", n, tuple(argv), confined), nontrivial=n > 1, sample=None)
+                    ctx.bump("option-glue")
+                    if got != n:
+                        ctx.violation("%r asks for %d layer subprocesses at a time, the runner uses %r%s: fewer than N "
+                                      "layers make progress at the same time" % (
+                                          argv, n, got, " (process confined to one CPU)" if confined else ""),
+                                      {"argv": argv, "confined_to_one_cpu": confined, "processes": got},
+                                      signature="C06:N-changed")
+    finally:
+        if full:
+            os.sched_setaffinity(0, full)
